@@ -12,14 +12,14 @@ import (
 
 func init() {
 	register(&Rule{
-		ID: "MT", Props: []string{"C01", "C02", "C17"}, Min: 4,
+		ID: "MT", Props: []string{"C01", "C02", "C17"}, Min: 5,
 		Doc: `the format of an input is decided on the bytes that were read and does not depend on the length of the first record or on quote characters in it: in pkg/obiformats.OBIMimeTypeGuesser
 (1) the argument of mimetype.Detect is the buffer sliced to the count returned by the read (not the whole buffer, whose tail is zero bytes); (2) mimetype.SetLimit is called, in the function, with
 0 or with a constant not smaller than the buffer — the library otherwise hands only 3072 bytes to the detectors, and the FASTQ detector needs the whole first record: a FASTQ file the toolkit wrote
 whose first read is longer than ~3 kb is refused as text/plain while the same bytes are accepted on stdin; (3) for every parent type the CSV detector (the one driving encoding/csv) is registered
 before the FASTA and FASTQ detectors — Extend prepends, so it is tried after them: a FASTQ record whose JSON title holds ,"b" and whose quality line ends with '"' otherwise reads as two-field CSV rows;
 (4) the CSV detector is not registered under application/octet-stream (what is not a text): a compressed file whose magic number is damaged is binary data, and the lenient detector took 2% of
-them for a table.`,
+them for a table; (5) the FASTQ detector reads the size of its window (its second parameter): with the three-line pattern alone, a first record longer than the window can never be recognised.`,
 		Run: runMT,
 	})
 }
@@ -210,6 +210,46 @@ func runMT(c *Ctx, s *Sink) {
 				if e.parent == par && recordDet[e.det] && e.pos < csvPos {
 					bad = par
 				}
+			}
+		}
+		// (5) the FASTQ detector does not need the whole first record in its window
+		key5 := base + ":fastq-detector-window"
+		var fqLit *ast.FuncLit
+		for o, ds := range defsExt {
+			for _, d := range ds {
+				if lit, ok := ast.Unparen(d).(*ast.FuncLit); ok && recordDet[o] {
+					isFq := false
+					ast.Inspect(lit.Body, func(m ast.Node) bool {
+						if bl, ok := m.(*ast.BasicLit); ok && strings.HasPrefix(bl.Value, "\"^@") {
+							isFq = true
+						}
+						return true
+					})
+					if isFq {
+						fqLit = lit
+					}
+				}
+			}
+		}
+		if fqLit == nil || len(fqLit.Type.Params.List) == 0 {
+			s.Undecided(nil, key5, fd.Pos(), "FASTQ detector literal not identified")
+		} else {
+			// its second parameter (the size of the window) is read
+			ps := flattenParams(fqLit.Type.Params)
+			usesLimit := false
+			if len(ps) >= 2 && ps[1] != nil {
+				lim := pExt.TypesInfo.ObjectOf(ps[1])
+				ast.Inspect(fqLit.Body, func(m ast.Node) bool {
+					if id, ok := m.(*ast.Ident); ok && pExt.TypesInfo.Uses[id] == lim {
+						usesLimit = true
+					}
+					return true
+				})
+			}
+			if usesLimit {
+				s.Pass(nil, key5, fqLit.Pos(), "the detector knows when its window is full and then accepts a first record that goes beyond it")
+			} else {
+				s.Fail(nil, key5, fqLit.Pos(), "the FASTQ detector only knows the pattern title line / sequence line / '+', all three inside its window, and never looks at the size of the window: a FASTQ file the toolkit wrote whose first record is longer than the 1 MiB read for the detection (3 reads of 1.1 Mb) is refused as text/plain, from a file and from stdin, while --fastq reads it back byte-identical")
 			}
 		}
 		// (4) binary data are not tried as CSV
